@@ -104,7 +104,7 @@ class Joint:
         S = (S + S.T) / 2
         r = np.asarray(y_obs, dtype=float) - self.mean[obs_rows]
         ev = np.linalg.eigvalsh(S)
-        if ev[0] <= 1e-9 * ev[-1] or ev[0] < 1e-10:
+        if ev[0] <= 1e-7 * ev[-1] or ev[0] < 1e-8:      # cond > 1e7: rounding in the recursions is amplified beyond the tolerances
             return None         # singular observation covariance: outside the property
         cho = sla.cho_factor(S)
         Sir = sla.cho_solve(cho, r)
